@@ -15,5 +15,7 @@ ASSUMPTIONS = ["real members of a class satisfy the literature's condition (math
 def run(ctx):
     ca = formula.get(ctx.repo)
     n = formula.r_formula(ctx, "sound")
+    formula.r_regen(ctx)        # stale conditions (of other parameters / samples) exclude members of the current class
+    formula.r_statpair(ctx)     # the stationary sample a family invents is a fresh one
     ctx.floor("class families", len(ca.families), 24)
     ctx.floor("class conditions", n, 40)
